@@ -3,6 +3,7 @@ package main
 import (
 	"fmt"
 	"go/token"
+	"go/types"
 	"sort"
 	"strings"
 
@@ -294,4 +295,68 @@ func (p *Prog) structKey(v ssa.Value, d int) string {
 		}
 	}
 	return p.ExprKey(v)
+}
+
+// positiveAmountRule: the stateless validation of a message rejects non-positive amounts.
+// For every math.Int field of a message type of the given modules, ValidateBasic can succeed
+// only through tests implying field >= 0 and field != 0 (one `!IsPositive()` test gives both).
+// The keepers rely on it: a negative amount turns a withdrawal into an unbacked credit.
+func positiveAmountRule(p *Prog, r *Report, rule string, mods map[string]bool, floor int) {
+	r.Rule(rule, "ValidateBasic of a message rejects negative and zero amounts (every math.Int field)", floor)
+	var fns []*ssa.Function
+	for _, fn := range p.Funcs {
+		if fn.Name() != "ValidateBasic" || fn.Signature.Recv() == nil || !mods[moduleOf(fn)] || len(fn.Blocks) == 0 || fn.Synthetic != "" {
+			continue
+		}
+		if !strings.HasSuffix(fnPkgPath(fn), "/types") {
+			continue
+		}
+		fns = append(fns, fn)
+	}
+	sort.Slice(fns, func(i, j int) bool { return fname(fns[i]) < fname(fns[j]) })
+	for _, fn := range fns {
+		recv := fn.Params[0]
+		nt := namedOf(recv.Type())
+		if nt == nil || !strings.HasPrefix(nt.Obj().Name(), "Msg") {
+			continue
+		}
+		st, ok := nt.Underlying().(*types.Struct)
+		if !ok {
+			continue
+		}
+		for i := 0; i < st.NumFields(); i++ {
+			f := st.Field(i)
+			if !strings.HasSuffix(f.Type().String(), "math.Int") {
+				continue
+			}
+			fieldName := f.Name()
+			isField := func(v ssa.Value) bool {
+				os := p.Origins(v)
+				if len(os) == 0 {
+					return false
+				}
+				for _, o := range os {
+					if o.Kind != "param" || o.Val != ssa.Value(recv) || len(o.Path) != 1 || o.Path[0] != fieldName {
+						return false
+					}
+				}
+				return true
+			}
+			r.Instance(rule)
+			r.FuncsSeen[fname(fn)] = true
+			construct := fmt.Sprintf("%s %s > 0", fname(fn), fieldName)
+			g1 := p.cmpGuard(fieldName+" >= 0", isField, isZeroValue, RGE)
+			g2 := p.cmpGuard(fieldName+" != 0", isField, isZeroValue, RNE)
+			ok1, _, w1 := p.Guarded(g1, fn, nil)
+			ok2, _, w2 := p.Guarded(g2, fn, nil)
+			switch {
+			case ok1 && ok2:
+				r.OK(rule, construct, "validation succeeds only for a positive amount", p.pos(fn.Pos()))
+			case !ok1:
+				r.Fail(rule, construct, "the stateless validation accepts a negative "+fieldName+": the keeper's bounds (requested <= balance) hold for every negative request and its subtraction becomes an unbacked credit", p.pos(fn.Pos()), w1)
+			default:
+				r.Fail(rule, construct, "the stateless validation accepts a zero "+fieldName, p.pos(fn.Pos()), w2)
+			}
+		}
+	}
 }
